@@ -23,7 +23,7 @@ type Prop struct {
 	Real, Stub []string
 	// Assumptions for the evidence file.
 	Assumptions []string
-	// Race: the thorough tier adds a pass under the race detector (plain
+	// Race: both tiers add a pass under the race detector (plain
 	// flavour, real mutexes) and treats a data race between two accesses in
 	// coreutils code as a violation.
 	Race bool
